@@ -288,7 +288,116 @@ func c16r2(c *Check) {
 			}
 		}
 	})
-	okLookup := match != nil && join != nil && stringBuiltFrom(match.Call.Args[1], join, 0) && instrDominates(sortCall, join)
+	okLookup := match != nil && join != nil && instrDominates(sortCall, join)
+	// the lookup key per path: the name alone for a series without tags, name;sorted-tags otherwise
+	keyProblem := ""
+	if match != nil && split != nil {
+		isTags := func(v ssa.Value) bool {
+			sl, ok := v.(*ssa.Slice)
+			if !ok || sl.X != ssa.Value(split) {
+				return false
+			}
+			k, ok := constInt(sl.Low)
+			return ok && k == 1 && sl.High == nil
+		}
+		isName := func(v ssa.Value) bool {
+			x, ok := elem(v, 0)
+			return ok && x == ssa.Value(split)
+		}
+		kcfg := &PathCfg{
+			BranchV: func(ifi *ssa.If, cond ssa.Value, taken bool, resolve func(ssa.Value) ssa.Value) []string {
+				cnd, neg := negStrip(cond)
+				bo, ok := cnd.(*ssa.BinOp)
+				if !ok {
+					return nil
+				}
+				for _, sd := range [][2]ssa.Value{{bo.X, bo.Y}, {bo.Y, bo.X}} {
+					call, ok := sd[0].(*ssa.Call)
+					if !ok {
+						continue
+					}
+					b, ok := call.Call.Value.(*ssa.Builtin)
+					if !ok || b.Name() != "len" {
+						continue
+					}
+					arg := call.Call.Args[0]
+					base := int64(0)
+					if arg == ssa.Value(split) {
+						base = 1 // len(elements): one more than the number of tags
+					} else if !isTags(arg) {
+						continue
+					}
+					k, ok := constInt(sd[1])
+					if !ok {
+						continue
+					}
+					op := bo.Op
+					if sd[0] == bo.Y {
+						op = flipRel(op)
+					}
+					val := taken != neg
+					r0, ok0 := evalRel(op, base, k)
+					r1, ok1 := evalRel(op, base+1, k)
+					if ok0 && ok1 && r0 != r1 {
+						if r0 == val {
+							return []string{"tags:empty"}
+						}
+						return []string{"tags:nonempty"}
+					}
+				}
+				return nil
+			},
+			ClassifyV: func(in ssa.Instruction, resolve func(ssa.Value) ssa.Value) []string {
+				if in != ssa.Instruction(match) {
+					return nil
+				}
+				v := resolve(match.Call.Args[1])
+				if isName(v) {
+					return []string{"key:name"}
+				}
+				if jc, ok := v.(*ssa.Call); ok && calleeName(jc.Common()) == "strings.Join" && jc.Call.Args[0] == ssa.Value(split) {
+					if sep, _ := constString(jc.Call.Args[1]); sep == ";" {
+						return []string{"key:join-all"}
+					}
+				}
+				f, ops, ok := textTemplate(v, 0)
+				if ok && f == "%s;%s" && len(ops) == 2 && isName(ops[0]) && ops[1] == ssa.Value(join) {
+					return []string{"key:name;tags"}
+				}
+				return []string{"key:other(" + f + ")"}
+			},
+		}
+		kpaths, ktrunc := EnumPaths(pm, nil, kcfg)
+		nKey := 0
+		for i := range kpaths {
+			pa := &kpaths[i]
+			var key string
+			for _, e := range pa.Events {
+				if strings.HasPrefix(e.Class, "key:") {
+					key = strings.TrimPrefix(e.Class, "key:")
+				}
+			}
+			if key == "" {
+				continue
+			}
+			nKey++
+			switch {
+			case key == "join-all":
+			case pa.Has("tags:empty") && key != "name":
+				keyProblem = "a series without tags is looked up as " + key + " instead of its plain name"
+			case pa.Has("tags:nonempty") && key != "name;tags":
+				keyProblem = "a tagged series is looked up as " + key + " instead of name;sorted-tags"
+			case !pa.Has("tags:empty") && !pa.Has("tags:nonempty") && key == "name;tags":
+				keyProblem = "the lookup string is name + \";\" + tags whether or not there are tags: a series without tags is looked up with a trailing ';', so a '$'-anchored storage-schemas pattern never matches it and it gets the interval of a later rule"
+			case !pa.Has("tags:empty") && !pa.Has("tags:nonempty") && key != "name;tags":
+				keyProblem = "the lookup string is " + key
+			}
+		}
+		if ktrunc || nKey == 0 {
+			keyProblem = "no path to the schema lookup enumerated"
+		}
+	}
+	c.Judge(keyProblem == "", "route.parseMetric looks the series up under the name graphite presents", c.AtFn(pm), "plain name without tags, name;sorted-tags with tags", keyProblem)
 	c.Judge(okLookup, "route.parseMetric matches schemas on name;sorted-tags", c.AtFn(pm), "sort.Strings(tags) precedes the construction of the lookup string", "the storage-schemas rule is selected on the tags in the order the sender wrote them (the lookup string is built before the tags are sorted): the Interval depends on tag order instead of Graphite's canonical form")
 	// bit sizes
 	for _, x := range []struct {
@@ -530,6 +639,29 @@ func c16r3(c *Check) {
 			if call, ok := x.Tuple.(*ssa.Call); ok && (calleeName(call.Common()) == "strings.Cut") && x.Index == 1 {
 				return true
 			}
+			// one of several results of a helper of the package (key, value, err := parseKeyValue(line))
+			if call, ok := x.Tuple.(*ssa.Call); ok {
+				if g := call.Call.StaticCallee(); g != nil && g.Blocks != nil && fnPkg(g) == fnPkg(pif) {
+					okAll, nRet := true, 0
+					allInstrs(g, func(in ssa.Instruction) {
+						r, ok := in.(*ssa.Return)
+						if !ok || x.Index >= len(r.Results) {
+							return
+						}
+						// error returns carry the zero value
+						if k, ok := r.Results[x.Index].(*ssa.Const); ok {
+							if sv, ok := constString(k); ok && sv == "" {
+								return
+							}
+						}
+						nRet++
+						if !trimmedOnly(r.Results[x.Index], depth+1) {
+							okAll = false
+						}
+					})
+					return okAll && nRet > 0
+				}
+			}
 		}
 		return false
 	}
@@ -549,7 +681,19 @@ func c16r3(c *Check) {
 		})
 	}
 	c.Judge(valueProblem == "" && nVal > 0, "persister.parseIniFile stores values as written", c.At(splitAt), "value = Trim(TrimSpace(kv[1]), quotes)", valueProblem+": something is cut out of the value (e.g. a trailing `;…` / `#…`), so a storage-schemas pattern that contains ';' (tag matching) or '#' is silently truncated and matches series it should not")
-	c.Judge(lineVals[splitArg], "persister.parseIniFile takes values as written", c.At(splitAt), "SplitN(line, \"=\", 2) on the trimmed line itself", "the line is edited before it is split into key and value (e.g. a trailing `;…` / `#…` is cut off): a storage-schemas pattern that contains ';' (tag matching) or '#' is silently truncated and matches series it should not")
+	okSplitArg := lineVals[splitArg]
+	if par, ok := splitArg.(*ssa.Parameter); ok && !okSplitArg {
+		// the split lives in a helper that is handed the line
+		if args, ok := c.P.paramArgs(par); ok && len(args) > 0 {
+			okSplitArg = true
+			for _, a := range args {
+				if !lineVals[a] {
+					okSplitArg = false
+				}
+			}
+		}
+	}
+	c.Judge(okSplitArg, "persister.parseIniFile takes values as written", c.At(splitAt), "SplitN(line, \"=\", 2) on the trimmed line itself", "the line is edited before it is split into key and value (e.g. a trailing `;…` / `#…` is cut off): a storage-schemas pattern that contains ';' (tag matching) or '#' is silently truncated and matches series it should not")
 	c.Judge(okFirst, "persister.WhisperSchemas.Match returns at the first matching schema", c.AtFn(m), "return inside the range loop over the (sorted) schemas", "Match does not stop at the first matching rule in slice order (e.g. it keeps scanning and returns the last match)")
 	rs := c.P.Func("persister", "", "ReadWhisperSchemas")
 	sorted := false
